@@ -81,7 +81,15 @@ def main(tier, seed):
     # (c) the batch hand-over to the analysis: ide::Change::apply
     from . import changek
     changek.part(chk, tier, jobs)
-    chk.assumptions += vfsrun.ASSUMPTIONS + ['part c: ide::Change::apply runs on its real MIR with the salsa database havoc\'d; k <= 3 (thorough 4) queued contents over 2 symbolic file ids; the obligation is that the last set_file_content for every file carries the last queued content; replayed against the real server with a multi-change notification',
+    # (d) native scenario (real binary): the documents exist on disk with OTHER contents than the editor sends
+    from mirsym import lsp_replay
+    probs = lsp_replay.disk_vs_editor_scenario(lsp_replay.build_binary())
+    for p_ in probs[:3]:
+        chk.violation('didOpen:disk-vs-editor', 'fixture', 'real binary: ' + p_[:700], {'kind': 'disk-vs-editor'}, confirmed=True)
+    if not probs:
+        chk.validated += 4
+    chk.assumptions += vfsrun.ASSUMPTIONS + ['part d (native scenario, real binary, not a solver verdict): files on disk differ from the text of didOpen - first document of a package that is not loaded yet, second document, an edit, a document of a nested package; after every step the analysed text of every open document is the editor\'s',
+                                            'part c: ide::Change::apply runs on its real MIR with the salsa database havoc\'d; k <= 3 (thorough 4) queued contents over 2 symbolic file ids; the obligation is that the last set_file_content for every file carries the last queued content; replayed against the real server with a multi-change notification',
                                             'Server::on_did_change\'s plumbing around the per-change calls (from_range + change_file_content) is covered structurally by C15, not here',
                                             'CR is assumed to occur only immediately before LF (the property: line breaks are LF or CRLF)']
     chk.trusted += vfsrun.TRUSTED
@@ -90,6 +98,11 @@ def main(tier, seed):
 
 def replay(path):
     d = json.load(open(path))
+    if d.get('cex', {}).get('kind') == 'disk-vs-editor':
+        from mirsym import lsp_replay
+        probs = lsp_replay.disk_vs_editor_scenario(lsp_replay.build_binary())
+        print(json.dumps(probs, indent=1))
+        return 1 if probs else 0
     if d.get('site') == 'change-apply':
         from mirsym import lsp_replay
         c = d['cex']
